@@ -11,9 +11,9 @@ CHECKS = {
     "C04": ("proof", "T1: loop body of _calculate_size_and_offsets == reference step for an arbitrary member from an arbitrary invariant state (induction over the field list), union layout, type table vs C ABI, _make_array/_make_pointer/sizeof; T2: library layout == independent reference, consumed == dumped == len(T)", "§5 C04", T1 + " with an inductive loop invariant; finite tables by evaluation"),
     "C05": ("proof", "T1 per scalar type and byte order (switched after creation and after a native warm-up): standard decoding/encoding, LEB128 against the recursive canonical definition; tables; T2: compiled readers follow a switched byte order", "§5 C05", T1),
     "C06": ("proof", "T1 (bit-vector mode): BitBuffer.read/write/flush against spec_bits for every (unit width, consumed, width, byte order, signedness) with symbolic unit contents; unit allocation step of the layout loop; T2 per bit-field program", "§5 C06", T1 + " (bit-vector encoding for BitBuffer)"),
-    "C07": ("proof", "T1: BaseArray length resolution and size check, _read_array for every symbolic count, _read_0/_write_0, C order of dimensions; T2 per array program", "§5 C07", T1 + "; data-dependent element loops unrolled to a stated bound in T2"),
-    "C08": ("proof", "T1: every leaf reader under the weak stream contract (any short read or fault) returns only on full delivery; T2: per definition no short read is accepted, premature end raises EOFError, a longer input with the same prefix takes the same path and gives the same value", "§5 C08", T1 + " under a weak (fault-injecting) stream contract"),
-    "C09": ("proof", "T2: per definition, reads stay inside [p, end), parsing the window D[p:] from 0 gives the same value/sizes and end == p + encoded size; T1: input-kind/call-form dispatch", "§5 C09", T1 + "; relational symbolic execution at symbolic start offsets"),
+    "C07": ("proof", "T1: BaseArray length resolution and size check, _read_array for every symbolic count, _read_0 for every length by induction (Packed, Int, Char, Wchar), _write_0, C order of dimensions, _make_array over call histories; T2 per array program", "§5 C07", T1 + "; data-dependent element loops unrolled to a stated bound in T2"),
+    "C08": ("proof", "T1: every leaf reader and BitBuffer.read under the weak stream contract (any short read or fault) return only on full delivery, array entry points return only when the bytes were available; T2: per definition no short read is accepted, premature end raises EOFError, a longer input with the same prefix takes the same path and gives the same value", "§5 C08", T1 + " under a weak (fault-injecting) stream contract"),
+    "C09": ("proof", "T2: per definition, reads stay inside [p, end), parsing the window D[p:] from 0 gives the same value/sizes and end == p + encoded size (== p + len(T) for fixed-size types); T1: input-kind/call-form dispatch, positions after _read_0/_read_array; kinds x call forms matrix executed (bounded)", "§5 C09", T1 + "; relational symbolic execution at symbolic start offsets"),
     "C10": ("other", "T1: operator/precedence tables == C table, each operator == C operation, evaluate_exp step (operand order), rewrite idempotence; the 'for every token sequence' clause is a bounded comparison with an independent precedence-climbing reference", "§5 C10", "contracts on the evaluator's steps and tables (proved) + bounded exhaustive comparison against a reference evaluator (labelled bounded)"),
     "C11": ("other", "T1 union layout; T2 per union program: consumes len(U), each member == parse of its type from the union bytes, round trip; assignment histories against a byte-buffer model: bounded", "§5 C11", "layout/coherence contracts proved per union program; assignment histories bounded"),
     "C12": ("other", "T1: enum read/write delegation to the underlying type, class-scoped equality on symbolic values; value preservation through Python's enum machinery and auto-numbering: bounded exhaustive (8-bit storage)", "§5 C12", "delegation/equality contracts proved; enum-machinery clauses bounded exhaustive"),
@@ -23,13 +23,13 @@ CHECKS = {
     "C16": ("proof", "T1: Pointer._read/_write/dereference/arithmetic/null contracts for every pointer width and byte order with symbolic stream contents; T2 pointer programs, compiled == interpreted", "§5 C16", T1),
     "C17": ("other", "T1 on the generated template text (AST shape for n fields) and its installation (code-object comparison); T2: single-field assignment changes exactly that field's bytes for all contents; instance-pair equivalences bounded", "§5 C17", "template/installation contracts and assignment locality proved; instance-pair clauses bounded"),
     "C18": ("other", "T1: commit/_update_fields recompute and reinstall every derived attribute (real text, incl. recompilation); equality with the one-shot class over all batchings: bounded exhaustive", "§5 C18", "commit contracts proved on the real text; batching equivalence bounded exhaustive"),
-    "C19": ("other", "T1: pack/unpack/pN/uN/swap contracts for all spellings and widths 8-32 (64 thorough); hexdump/dumpstruct: bounded exhaustive against a dump parser", "§5 C19", "integer-helper contracts proved; string builders bounded"),
+    "C19": ("other", "T1: pack/unpack/pN/uN/swap contracts for all eight byte-order spellings and widths 8-32 (64 thorough), odd widths; hexdump/dumpstruct: bounded exhaustive against a dump parser", "§5 C19", "integer-helper contracts proved; string builders bounded"),
     "C20": ("exploration", "bounded exploration only: ast.parse of the stub, declared names and field hints against the loaded definitions", "§5 C20", "no contract within reach decides 'valid Python text': bounded exploration of definition sets (stated as such)"),
 }
 NOTES = {
-    "C01": "trusted: z3/cvc5, pyvc itself, definitions of int.from_bytes/to_bytes and struct for ints, floats/UTF-16 opaque, BytesIO axioms, instance construction by CPython; family F bounds the programs; data-dependent loops unrolled to 2 in T2",
+    "C01": "trusted: z3/cvc5, pyvc itself, definitions of int.from_bytes/to_bytes and struct for ints, floats/UTF-16 opaque, BytesIO axioms, instance construction by CPython; family F bounds the programs; data-dependent loops unrolled to 2 in T2; a case left undecided triggers its bounded native stand-in (refutes only)",
 }
-DEFAULT_NOTE = "trusted base: z3 (cvc5 fallback) and the pyvc VC generator; CPython builtins by definition/axiom (int.from_bytes/to_bytes, struct, BytesIO, enum, floats and UTF-16 opaque); quantifier over definitions covered by the enumerated family F only; bounded stand-ins are labelled in the evidence and never counted as proved"
+DEFAULT_NOTE = "trusted base: z3 (cvc5 fallback) and the pyvc VC generator; CPython builtins by definition/axiom (int.from_bytes/to_bytes, struct, BytesIO, enum, floats and UTF-16 opaque); quantifier over definitions covered by the enumerated family F only; bounded stand-ins are labelled in the evidence and never counted as proved (a case left undecided on some tree triggers its bounded native stand-in, which can only refute)"
 
 checks = []
 for pid, (cat, text, ref, tech) in CHECKS.items():
